@@ -398,7 +398,8 @@ class C07(Property):
             'side and active+inactive duplicates, net stoichiometry unchanged (K planted from the accumulated net stoichiometry); '
             'states: exactly planted equilibria (rational c, K = Q(c) exact, c0 = c - N^T xi), one violated quotient, one violated '
             'total, one perturbed concentration, fully random y/params incl. zeros and K = 0; precipitate systems for the stoichs switch. '
-            'Non-trivial: distinct JSON value with at least one reaction.')
+            'Non-trivial: distinct JSON value with at least one reaction. Oracle verdicts: every case of the exact formulations (Lin, Square), '
+            'planted states only for the float formulations (kind random of LinRel/Log and all precipitate systems: correspondence only).')
     assumptions = ('integer stoichiometric coefficients and composition counts; species with a composition dict',
                    'shapes len(y) = ns, len(params) = ns + nr (new_eq_params=True) resp. ns (new_eq_params=False; longer: AssertionError, compared)',
                    'rref_equil / rref_preserv = True: the reducer (sympy) output is a parameter of the model; the hypothesis RowEquiv of the '
@@ -478,6 +479,10 @@ class C07(Property):
         xi = [lim * F(rng.randint(-100, 100), 100) for _ in range(nr)]
         c0 = [c[j] - sum((xi[i] * N[i][j] for i in range(nr)), F(0)) for j in range(ns)]
         fac = rng.choice([F(2), F(1, 2), F(9, 8), F(3), F(7, 8)])
+        # a violation CLOSE to equilibrium (relative 1e-4): a residual that vanishes on a thin set around the equilibrium must show.
+        # For a violated K in every formulation; for totals / concentrations only where the oracle is exact (Lin, Square).
+        if rng.random() < 0.25 and (kind == 'viol_q' or form in ('lin', 'square')):
+            fac = rng.choice([F(10001, 10000), F(9999, 10000)])
         info = {'kind': kind}
         if kind == 'viol_q' and nr:
             i = rng.randrange(nr) if viol_index is None else viol_index
@@ -1529,16 +1534,36 @@ class C07(Property):
         return None
 
     def _oracle_lintanh(self, c):
+        """NumSysLinTanh: on the pinned tree `f` raises TypeError for every input (open known finding).  Should it ever return,
+        the same claim as for the other formulations applies: zero at the pre-image of the planted equilibrium."""
+        import numpy as np
         from chempy._eqsys import NumSysLinTanh
         es = build(c['sys'])
+        if has_other_phase(es) or es.nr == 0:
+            return None
+        p = [float(unrj(v)) for v in c['params']]
+        conc = [float(unrj(v)) for v in c['y']]
         try:
-            NumSysLinTanh(es).f([0.0] * es.ns, [float(unrj(v)) for v in c['params']])
+            nsys = NumSysLinTanh(es)
+            with np.errstate(all='ignore'):
+                x, _ = nsys.pre_processor(np.array(conc), np.array(p))
+            r = nsys.f(list(x), list(p))
         except TypeError as e:
             if ('C07', 'lintanh-typeerror') in load_known()[0]:
                 return 'NumSysLinTanh.f raises TypeError: %s' % str(e)[:80]
-            return None     # defect reported to the coordinator; becomes a KNOWN-FINDING line once listed
-        except Exception:
             return None
+        except Exception as e:
+            return 'NumSysLinTanh.f raised %s: %s' % (exc_name(e), str(e)[:80])
+        try:
+            vals = [abs(complex(v)) for v in r]
+        except Exception:
+            return 'NumSysLinTanh.f returned non-numeric entries at a numeric state'
+        keys, B = comp_matrix(es)
+        if len(vals) != es.nr + len(keys):
+            return 'NumSysLinTanh.f returned %d equations, expected %d' % (len(vals), es.nr + len(keys))
+        scale = 1.0 + 10 * sum(abs(v) for v in conc) + 10 * sum(abs(v) for v in p[:es.ns])
+        if any(not v <= 1e-9 * scale for v in vals):
+            return 'NumSysLinTanh.f is %r at the pre-image of a planted equilibrium' % max(vals)
         return None
 
     def known_key(self, c, failure):
